@@ -399,10 +399,10 @@ func runC09(c *fw.Ctx) {
 	h := installHooks(uint64(c.Seed)*1000 + uint64(c.Shard))
 	h.jitter.Store(true)
 	r := c.Rand("hist")
-	for i := 0; i < c.PerShard(c.Pick(480, 20000)); i++ {
+	for i := 0; i < c.PerShard(c.Pick(1600, 40000)); i++ {
 		c09History(c, r, fmt.Sprintf("hist-%d", i), false)
 	}
-	for i := 0; i < c.PerShard(c.Pick(160, 4000)); i++ {
+	for i := 0; i < c.PerShard(c.Pick(480, 12000)); i++ {
 		c09History(c, r, fmt.Sprintf("parked-%d", i), true)
 	}
 	// bounded progress and library code on atoms
